@@ -15,6 +15,11 @@ intra-procedural, flow-insensitive def-use pass:
     global               NumPy's / Python's process-wide generator
     fresh                no seed argument / literal None / library default entropy
     constant             literal seed, or a deterministic engine (`Sobol(scramble=False)`)
+    entropyOnly path     derived from a seed parameter, but only through `.entropy` (or only
+                         `.spawn_key`) of a SeedSequence: deterministic, yet SeedSequences spawned
+                         from one parent collapse to the same stream -- NOT seeded.
+                         (`s.generate_state(n)` and `SeedSequence(s.entropy, spawn_key=s.spawn_key)`
+                         keep the whole seed and stay `fromSeedParam`.)
     unclassified         anything in numpy.random, random, scipy.stats.qmc, sklearn, cma,
                          secrets, os.urandom, uuid that the API table below does not know
 
@@ -79,7 +84,8 @@ binomialvariate""".split())
 DISTINCTIVE = (set(_DISTS) - {"f", "power", "gamma", "beta"}) | set(
     """integers permuted rand randn randint random_integers random_sample ranf tomaxint gauss randrange
     getrandbits randbytes normalvariate""".split())
-DERIVING_METHODS = {"generate_state", "jumped", "spawn_key"}  # seed material derived from a generator object
+DERIVING_METHODS = {"generate_state", "jumped"}  # seed material derived from a generator object (keeps all of it)
+SEEDSEQ_PARTS = {"entropy", "spawn_key"}  # attributes holding only a part of a SeedSequence
 
 QMC_ENGINES = {  # name -> literal keyword that makes the engine deterministic
     "Sobol": ("scramble", False),
@@ -107,8 +113,8 @@ NONDETERMINISTIC = {"time.time", "time.time_ns", "time.perf_counter", "time.mono
 INERT_CALLEES = {"isinstance", "issubclass", "type", "len", "id", "repr", "str", "print", "hasattr", "getattr",
                  "callable", "bool"}
 
-SEVERITY = {"const": 0, "seed": 1, "own": 1, "fresh": 3, "global": 4, "unknown": 5}
-PROV_ORDER = ["fromSeedParam", "ownGenerator", "constant", "fresh", "global", "unclassified"]
+SEVERITY = {"const": 0, "seed": 1, "own": 1, "lossy": 2, "fresh": 3, "global": 4, "unknown": 5}
+PROV_ORDER = ["fromSeedParam", "ownGenerator", "constant", "entropyOnly", "fresh", "global", "unclassified"]
 
 
 class V:
@@ -352,6 +358,14 @@ class Analysis:
                         v = self.any_attr(e.attr)
                     return self._through_attr(v, e.attr)
                 base = self.ev(S, e.value)
+                if base is not None and base.tag in ("seed", "own", "lossy") and e.attr in SEEDSEQ_PARTS:
+                    # one component of a SeedSequence: `seed.entropy` forgets the spawn key, so all children
+                    # spawned from one parent collapse to the parent (`generate_state()` keeps it: see
+                    # DERIVING_METHODS); `SeedSequence(s.entropy, spawn_key=s.spawn_key)` is recognised as a
+                    # faithful copy where the constructor is classified
+                    return V("lossy", path=f"{base.path}.{e.attr}",
+                             note=f"only .{e.attr} of a seed is used: the rest of the SeedSequence "
+                                  "(spawn key / entropy) is dropped, sibling seeds collapse")
                 if base is not None and base.gen and e.attr in GEN_METHODS | {"bit_generator", "seed_seq"}:
                     return base  # bound method of / object inside a generator
                 v = self.any_attr(e.attr)  # `other._rng`: by attribute name across all classes
@@ -482,9 +496,16 @@ class Analysis:
                     v = V("fresh", note="no seed argument")
                 else:
                     v = self.ev(S, arg, as_seed=True)
+                    if v is not None and v.tag == "lossy" and name == "SeedSequence":
+                        # SeedSequence(s.entropy, spawn_key=s.spawn_key): a faithful copy of s
+                        sk = next((self.ev(S, k.value) for k in call.keywords if k.arg == "spawn_key"), None)
+                        if sk is not None and sk.tag == "lossy" and sk.path.endswith(".spawn_key") \
+                                and v.path.endswith(".entropy") \
+                                and sk.path[:-len(".spawn_key")] == v.path[:-len(".entropy")]:
+                            v = V("seed", path=v.path[:-len(".entropy")] + ".copy")
                     if v is None:
                         v = V("unknown", note="seed argument of unknown provenance: " + ast.unparse(arg)[:40])
-                    elif v.tag == "seed":
+                    elif v.tag in ("seed", "lossy"):
                         v = v.but(path=f"{v.path}.{name}" if name != "default_rng" else v.path)
                 return ("construct", f"{L}.{name}", v.but(gen=True, engine=False, sp=None, child=None))
             if (L, name) in ENTROPY_FUNCS or L in ("secrets", "os.urandom"):
@@ -839,6 +860,8 @@ class Analysis:
             prov = ("fromSeedParam", v.path)
         elif v.tag == "own":
             prov = ("ownGenerator", v.path)
+        elif v.tag == "lossy":
+            prov = ("entropyOnly", v.path)
         elif v.tag == "const":
             prov = ("constant", "")
         elif v.tag == "fresh":
@@ -880,7 +903,7 @@ def lean_str(s):
 
 def lean_prov(p):
     tag, arg = p
-    if tag in ("fromSeedParam", "ownGenerator"):
+    if tag in ("fromSeedParam", "ownGenerator", "entropyOnly"):
         return f".{tag} {lean_str(arg)}"
     return f".{tag}"
 
